@@ -343,6 +343,9 @@ class HdlcFrameReader(MeterReaderBase[HdlcFrame]):
                 self._start_frame()
                 self._buffer.trim_buffer_to_current_position()
 
+        # Drop consumed octets (inter-frame time fill would otherwise be buffered forever).
+        self._buffer.trim_buffer_to_current_position()
+
         return frames_received
 
     def _read_next(self) -> bool:
@@ -376,7 +379,7 @@ class HdlcFrameReader(MeterReaderBase[HdlcFrame]):
 
         elif len(self._frame) == 0:
             # Found new flag sequence. Two is normal ( end + start), one is allowed, and many possible if time fill.
-            pass
+            self._raw_frame_data.clear()
 
         elif self._frame.header.header_check_sequence is None:
             # Frames which are too short are silently discarded, and not counted as a FCS error.
